@@ -18,8 +18,9 @@ def _fresh(doc, style, plain):
     return copy.deepcopy(_CACHE[key])
 
 
-def run_merge(ldoc, rdoc, cfgname, style="block", plain=False, mergeat=None, rules=None, keys=None, anchors=None, rplain=None):
-    """Returns (outcome, table_or_message, merger): outcome in ok | mergeerr | yperr | crash."""
+def run_merge(ldoc, rdoc, cfgname, style="block", plain=False, mergeat=None, rules=None, keys=None, anchors=None, rplain=None, rdoc2=None):
+    """Returns (outcome, table_or_message, merger): outcome in ok | mergeerr | yperr | crash.
+    rdoc2: a second right-hand document merged by the SAME Merger after rdoc."""
     from yamlpath.merger import Merger, MergerConfig
     from yamlpath.merger.exceptions import MergeException
     from yamlpath.exceptions import YAMLPathException
@@ -42,6 +43,8 @@ def run_merge(ldoc, rdoc, cfgname, style="block", plain=False, mergeat=None, rul
     mg = Merger(absdoc.LOG, ldata, cfg)
     try:
         mg.merge_with(rdata)
+        if rdoc2 is not None:
+            mg.merge_with(_fresh(rdoc2, style, plain if rplain is None else rplain))
     except MergeException as ex:
         return "mergeerr", str(ex)[:160], mg
     except YAMLPathException as ex:
